@@ -78,8 +78,13 @@ func (m *ImportMap) Find(shortName string) *Import {
 	}
 
 	// Priority 2: Search by actual package name
+	// (an import renamed by an explicit alias does not bind its declared name in the file;
+	// blank and dot imports keep it available for annotations)
 	for i := range *m {
 		imp := &(*m)[i]
+		if imp.Alias != "" && imp.Alias != "_" && imp.Alias != "." {
+			continue
+		}
 		if imp.PackageName != "" && imp.PackageName == shortName {
 			return imp
 		}
